@@ -259,6 +259,16 @@ var vSProgs = []vSProg{
 		}
 		return n == 1
 	}},
+	// sub-queries with their own paging: evaluated afresh for every outer row
+	{`count(from reports where true limit 1) = 1`, "b", func(p *vPop, e *vPerson) bool { return len(p.reports(e)) >= 1 }},
+	{`count(from reports where true skip 1) = 1`, "b", func(p *vPop, e *vPerson) bool { return len(p.reports(e)) == 2 }},
+	{`not isEmpty(from reports where s = "x" limit 1)`, "bs", func(p *vPop, e *vPerson) bool {
+		any := false
+		for _, r := range p.reports(e) {
+			any = verifrt.Or(any, sEq(r.S, "x"))
+		}
+		return any
+	}},
 	// map elements (any type): absent, string, int64 or bool value
 	{`tags.k = "v"`, "t", func(p *vPop, e *vPerson) bool { s, ok := e.Tag.(string); return ok && s == "v" }},
 	{`tags.k != null`, "t", func(p *vPop, e *vPerson) bool { return e.Tag != nil }},
